@@ -167,6 +167,8 @@ def rows_of(d):
 
     def oid_for(cls, iattrs):
         """the identifier of the referred class that holds the identifying attributes"""
+        if cls not in classes:
+            return 0                    # a relationship naming a class that does not exist (unresolved diagrams)
         for i in classes[cls]['idents']:
             if iattrs and all(a in i['attrs'] for a in iattrs):
                 return i['num']
@@ -381,8 +383,11 @@ def decode(m):
 
 def normal_diagram(d):
     """order-insensitive form of a diagram for comparing `decode(load(encode(d)))` with `d`"""
+    known = {(k['comp'], k['id']) for k in d['containers']}
+
     def par(p):
-        return list(p) if p else None
+        # a Package_ID / Component_ID that names no row reads back as no parent at all
+        return list(p) if p and (p[0] == 'comp', p[1]) in known else None
     out = {
         'containers': sorted(([k['comp'], k['id'], k['name'], par(k['parent'])] for k in d['containers']), key=repr),
         'dts': sorted(([t['id'], t['name'], list(t['kind']), par(t['parent'])] for t in d['dts']), key=repr),
@@ -485,11 +490,11 @@ def py_contained(d, root, parent):
     for _ in range(len(d['containers']) + 2):
         if not parent:
             return False
-        if parent[0] == 'comp' and parent[1] == root:
-            return True
         k = next((k for k in d['containers'] if k['comp'] == (parent[0] == 'comp') and k['id'] == parent[1]), None)
         if k is None:
-            return False
+            return False                # a Package_ID / Component_ID that names no row is no container
+        if parent[0] == 'comp' and parent[1] == root:
+            return True
         parent = k['parent']
     return False
 
@@ -499,7 +504,7 @@ def py_global(d, parent):
         if not parent:
             return True
         if parent[0] == 'comp':
-            return False
+            return not any(k['comp'] and k['id'] == parent[1] for k in d['containers'])
         k = next((k for k in d['containers'] if not k['comp'] and k['id'] == parent[1]), None)
         if k is None:
             return True
@@ -671,6 +676,57 @@ def py_sql_text(d, comp, drv):
     return ''.join(out)
 
 
+def py_resolved(d, comp):
+    """every class and attribute a relationship in scope refers to exists (otherwise the extractor dereferences None)"""
+    def pair(rgo, rto, rs):
+        rc, tc = _find(d['classes'], 'id', rgo), _find(d['classes'], 'id', rto)
+        return rc is not None and tc is not None and all(
+            _find(rc['attrs'], 'id', x[0]) is not None and _find(tc['attrs'], 'id', x[1]) is not None for x in rs)
+    for r in d['rels']:
+        if not py_in_scope(d, comp, r['parent']):
+            continue
+        k = r['kind']
+        if k[0] == 'simple' and not pair(k[1][0], k[2][0], k[3]):
+            return False
+        if k[0] == 'linked' and not (pair(k[3], k[1][0], k[4]) and pair(k[3], k[2][0], k[5])):
+            return False
+        if k[0] == 'subsup' and not (_find(d['classes'], 'id', k[1]) is not None and all(pair(s[0], k[1], s[1]) for s in k[2])):
+            return False
+    return True
+
+
+def break_resolution(rng, d, fresh):
+    """a copy of `d` in which one relationship names a class or an attribute that does not exist; None if `d` has no
+    relationship with classes"""
+    import copy
+    cands = [i for i, r in enumerate(d['rels']) if r['kind'][0] in ('simple', 'linked', 'subsup')]
+    if not cands:
+        return None
+    d = copy.deepcopy(d)
+    r = d['rels'][rng.choice(cands)]
+    k = r['kind']
+    ghost = fresh()
+    lists = [k[3]] if k[0] == 'simple' else [k[4], k[5]] if k[0] == 'linked' else [s[1] for s in k[2]]
+    refs = [x for l in lists for x in l]
+    if refs and rng.random() < 0.5:
+        x = rng.choice(refs)
+        x[rng.choice([0, 1])] = ghost                   # an O_REF whose attribute row is missing
+    elif k[0] == 'simple':
+        k[rng.choice([1, 2])][0] = ghost                # R_FORM / R_PART of a class that is missing
+    elif k[0] == 'linked':
+        j = rng.choice([1, 2, 3])
+        if j == 3:
+            k[3] = ghost
+        else:
+            k[j][0] = ghost
+    else:
+        if rng.random() < 0.5:
+            k[1] = ghost
+        else:
+            rng.choice(k[2])[0] = ghost
+    return d
+
+
 def py_definable(schema):
     """can every define_class / define_association call for this (canonical) schema succeed: class names distinct
     when upper-cased, both classes of every association defined, every target key an attribute of the target"""
@@ -681,6 +737,8 @@ def py_definable(schema):
     for g in schema[1]:
         for src, tgt in g[1]:
             if src[0].upper() not in attrs or tgt[0].upper() not in attrs:
+                return False
+            if len(src[1]) != len(tgt[1]):
                 return False
             if any(k.upper() not in attrs[tgt[0].upper()] for k in tgt[1]):
                 return False
@@ -884,7 +942,8 @@ KLS = ['A', 'B', 'C', 'D', 'E', 'F', 'G', 'H', 'Dog', 'Cat', 'Owner', 'Leash', '
        'Sub1', 'Sub2', 'Sup', 'Link', 'Acct']
 
 
-def gen_diagram(rng, max_classes=5, special_names=False, ensure_bare=False, ensure_unsupported=False):
+def gen_diagram(rng, max_classes=5, special_names=False, ensure_bare=False, ensure_unsupported=False,
+                ensure_empty_name=False, ensure_dangling_parent=False, empty_enum=False):
     """a random well-formed class diagram; returns the diagram.  Every identifier is fresh (one counter)."""
     counter = [0]
 
@@ -927,6 +986,19 @@ def gen_diagram(rng, max_classes=5, special_names=False, ensure_bare=False, ensu
         base = rng.choice(d['dts'])
         nm = 'User%d' % i if not (special and rng.random() < 0.5) else rng.choice(special) + 'U%d' % i
         d['dts'].append({'id': nid(), 'name': nm, 'kind': ['user', base['id']], 'parent': some_parent(0.2), 'predef': False})
+    # the empty data type name: Python tests names for truthiness, so such a type types no attribute and is no base
+    if rng.random() < 0.1 or ensure_empty_name:
+        # (an enumeration named '' makes mk_component's namedtuple fail: only where the XSD generator is the subject)
+        shape = rng.choice(['enum', 'user', 'core'] if empty_enum else ['user', 'core'])
+        kind = ['enum', 'e1', 'e2'] if shape == 'enum' else ['user', rng.choice(d['dts'])['id']] if shape == 'user' \
+            else ['core', rng.randint(1, 5)]
+        d['dts'].append({'id': nid(), 'name': '', 'kind': kind, 'parent': some_parent(0.2), 'predef': False})
+        if rng.random() < 0.6:
+            d['dts'].append({'id': nid(), 'name': 'OfEmpty', 'kind': ['user', d['dts'][-1]['id']], 'parent': some_parent(0.2),
+                             'predef': False})
+    # a data type whose PE_PE names a component that does not exist: global for is_global, contained nowhere
+    if ensure_dangling_parent or rng.random() < 0.05:
+        d['dts'].append({'id': nid(), 'name': 'Lost', 'kind': ['enum', 'l1'], 'parent': ['comp', nid()], 'predef': False})
     # data types no branch of the code looks at: structured (S_SDT), instance reference (S_IRDT), no subtype row
     for nm, flavour, p in (('Struct0', 'sdt', 0.3), ('inst_ref<Node>', 'irdt', 0.3), ('inst_ref_set<Node>', 'irdt', 0.15),
                            ('Bare_dt', 'none', 0.15)):
